@@ -21,6 +21,20 @@ import refsym
 
 IMPORTS = ('From SV Require Import Base.Sym Base.Tensor Model.SymInst Model.Sectors Model.Array Model.Arith '
            'Model.Wf Model.Fermi Model.Ctor.\n')
+# run-time tie of the TRANSLATED constructor algorithms (Gen/CtorAlgGen.v, tr/gen_ctor2.py): own shard and imports,
+# so that the correspondence of the hand model above survives when the generated file is missing
+GEN_IMPORTS = IMPORTS + 'From SV Require Import Gen.SectorsGen Gen.CtorAlgGen.\n'
+GEN_PREAMBLE = '''
+Definition gstrict (G : Symmetry) (R : Ring) (x y : aarray G R) : bool :=
+  list_eqb (index_eqb G) (indices G R x) (indices G R y) && ceqb G (charge G R x) (charge G R y)
+  && blocks_eqb_strict G R (blocks G R x) (blocks G R y).
+Definition gok_arr (G : Symmetry) (R : Ring) (r : cres (aarray G R)) (y : aarray G R) : bool :=
+  match r with COk x => gstrict G R x y | _ => false end.
+Definition gok_t (R : Ring) (r : cres (tensor R)) (t : tensor R) : bool :=
+  match r with COk x => tensor_eqb R x t | _ => false end.
+Definition graises {A} (r : cres A) : bool := match r with CRaise => true | _ => false end.
+'''
+GEN_FUEL = 8
 SYMS = ['Z2', 'U1', 'Z2Z2', 'U1U1', 'Z4']
 NONSELF = ('U1', 'U1U1', 'Z4')     # negation matters
 
@@ -184,6 +198,7 @@ def run(ctx):
     rng = ctx.rng
     found = []           # concrete failing inputs
     exprs, meta = [], []
+    gexprs, gmeta = [], []        # the GENERATED functions (Gen/CtorAlgGen.v) against the implementation
     drift = []
     stats = {'routes': 0, 'routes_raise_expected': 0, 'projection': 0, 'to_dense': 0, 'round_trip': 0,
              'fermionic_signs': 0, 'odd_requires_oddpos': 0, 'inferred_charge': 0, 'model_cases': 0}
@@ -196,6 +211,12 @@ def run(ctx):
         meta.append((kind, info))
         stats['model_cases'] += 1
         ctx.count()
+
+    def add_gen(kind, expr, info):
+        if len(gexprs) < (6000 if ctx.thorough else 1800):
+            gexprs.append(expr)
+            gmeta.append((kind, info))
+            ctx.count()
 
     def bad(what, **kw):
         if len(found) < 40:
@@ -317,15 +338,30 @@ def run(ctx):
                         A, A, gixs(ixs, sym), gopt_charge(qo), gen.garray(r, sym, 'ZRing')), ctxd)
                     drift.append(('from_fill_fn order', 'blocks_eqb_strict %s (blocks %s (from_fill_fn %s demo_fill %s %s)) %s' % (
                         A, A, A, gixs(ixs, sym), gopt_charge(qo), gblocks(r.blocks, 'ZRing'))))
+                    add_gen('from_fill_fn', 'gok_arr %s (from_fill_fn_gen %s demo_fill %s %s) %s' % (
+                        A, A, gixs(ixs, sym), gopt_charge(qo), gen.garray(r, sym, 'ZRing')), ctxd)
+                # BlockIndex.__init__ on a table given in a random (unsorted) order
+                for cm, du in zip(cms, duals):
+                    items = list(cm.items())
+                    rng.shuffle(items)
+                    bx, errx = call(lambda: sr.BlockIndex(dict(items), dual=du))
+                    if errx is None:
+                        add_gen('BlockIndex.__init__', 'index_eqb %s (block_index_init_gen %s [%s] %s None) %s' % (
+                            sym, sym, '; '.join('(%s, %d%%nat)' % (gen.gch(c_), d_) for c_, d_ in items), 'true' if du else 'false',
+                            gen.gindex(bx, sym)), ctxd)
                 r, err = call(lambda: cls(indices=ixs, blocks=want_blocks, **qarg, **fkw))
                 if err is None:
                     add_case('__init__', 'aarray_eqb %s (init_array %s %s %s %s) %s' % (
+                        A, A, gixs(ixs, sym), gopt_charge(qo), gblocks(want_blocks, 'ZRing'), gen.garray(r, sym, 'ZRing')), ctxd)
+                    add_gen('__init__', 'gok_arr %s (array_init_gen %s %s %s %s) %s' % (
                         A, A, gixs(ixs, sym), gopt_charge(qo), gblocks(want_blocks, 'ZRing'), gen.garray(r, sym, 'ZRing')), ctxd)
                 if want_blocks:
                     r, err = call(lambda: cls.from_blocks(want_blocks, duals, **qarg, **fkw))
                     if err is None:
                         add_case('from_blocks', 'match from_blocks %s %s %s %s with Some y => aarray_eqb %s y %s | None => false end' % (
                             A, gblocks(want_blocks, 'ZRing'), gbools(duals), gopt_charge(qo), A, gen.garray(r, sym, 'ZRing')), ctxd)
+                        add_gen('from_blocks', 'gok_arr %s (from_blocks_gen %s %s %s %s) %s' % (
+                            A, A, gblocks(want_blocks, 'ZRing'), gbools(duals), gopt_charge(qo), gen.garray(r, sym, 'ZRing')), ctxd)
                 if len(ctx.coverage['samples']) < 2 and want_blocks and nd >= 2:
                     ctx.sample({'kind': 'four routes', **jsonable(ctxd), 'sectors': [list(s) for s in want_blocks]})
 
@@ -381,6 +417,11 @@ def run(ctx):
         ctx.nontrivial(('infer', sym, str(sorted(blocks)), str(duals), str(q)))
         add_case('__init__', 'aarray_eqb %s ZRing (init_array %s ZRing %s None %s) %s' % (
             sym, sym, gixs(ixs, sym), gblocks(blocks, 'ZRing'), gen.garray(r, sym, 'ZRing')), cd)
+        add_gen('__init__', 'gok_arr %s ZRing (array_init_gen %s ZRing %s None %s) %s' % (
+            sym, sym, gixs(ixs, sym), gblocks(blocks, 'ZRing'), gen.garray(r, sym, 'ZRing')), cd)
+        if fb is not None and not e2:
+            add_gen('from_blocks', 'gok_arr %s ZRing (from_blocks_gen %s ZRing %s %s (Some %s)) %s' % (
+                sym, sym, gblocks(blocks, 'ZRing'), gbools(duals), gen.gch(r.charge), gen.garray(fb, sym, 'ZRing')), cd)
 
     # ---- from_blocks error paths (model None <-> raises)
     for k in range(18 if not ctx.thorough else 90):
@@ -410,6 +451,8 @@ def run(ctx):
         add_case('from_blocks-raises', 'match from_blocks %s ZRing %s %s (Some %s) with None => %s | Some _ => %s end' % (
             sym, gblocks(blocks, 'ZRing'), gbools(duals), gen.gch(x.charge), 'true' if err else 'false', 'false' if err else 'true'),
             {'symmetry': sym, 'how': how})
+        add_gen('from_blocks-raises', '%s (graises (from_blocks_gen %s ZRing %s %s (Some %s)))' % (
+            '' if err else 'negb', sym, gblocks(blocks, 'ZRing'), gbools(duals), gen.gch(x.charge)), {'symmetry': sym, 'how': how})
 
     # ---- random(): sectors, shapes, charge, determinism under a seed
     for cls, sym, static, ferm in configs:
@@ -500,6 +543,11 @@ def run(ctx):
         add_case('from_dense', 'match %s with Some y => aarray_eqb %s y %s | None => false end' % (mexpr, A, gen.garray(y, sym, ring)), cd)
         drift.append(('from_dense order', 'match %s with Some y => blocks_eqb_strict %s (blocks %s y) %s | None => false end' % (
             mexpr, A, A, gblocks(y.blocks, ring))))
+        gexpr = 'from_dense_gen %s %d %s %s %s %s' % (A, GEN_FUEL, D, gmaps(maps), gbools(duals), gopt_charge(None if omit_q else q))
+        add_gen('from_dense', 'gok_arr %s (%s) %s' % (A, gexpr, gen.garray(y, sym, ring)), cd)
+        if y.blocks and k % 3 == 0:
+            add_gen('to_dense∘from_dense', 'match %s with COk y => gok_t %s (to_dense_gen %s %d y) %s | _ => false end' % (
+                gexpr, ring, A, GEN_FUEL, gen.gtensor(proj, ring)), cd)
         if y.blocks:
             add_case('to_dense∘from_dense', 'match %s with Some y => match to_dense %s y with Some t => tensor_eqb %s t %s | None => false end | None => false end' % (
                 mexpr, A, ring, gen.gtensor(proj, ring)), cd)
@@ -533,6 +581,8 @@ def run(ctx):
             bad('from_dense accepts an index map shorter than its axis', symmetry=sym, index_maps=maps)
         add_case('from_dense-raises', 'match from_dense %s ZRing %s %s [false; true] None with None => true | Some _ => false end' % (
             sym, gen.gtensor(d, 'ZRing'), gmaps(maps)), {'symmetry': sym})
+        add_gen('from_dense-raises', '%s (graises (from_dense_gen %s ZRing %d %s %s [false; true] None))' % (
+            '' if err else 'negb', sym, GEN_FUEL, gen.gtensor(d, 'ZRing'), gmaps(maps)), {'symmetry': sym})
 
     # ============================================================ 3. to_dense and blocks -> dense -> blocks
     n_td = 2400 if ctx.thorough else 300
@@ -563,6 +613,8 @@ def run(ctx):
             ctx.nontrivial(('signs', sym, str(sorted(x.blocks)), str(sorted(x.phases.items()))))
         add_case(fn, 'match %s %s %s with Some t => tensor_eqb %s t %s | None => false end' % (
             fn, A, X, ring, gen.gtensor(got, ring)), cd)
+        add_gen(fn, 'gok_t %s (to_dense_gen %s %d %s) %s' % (
+            ring, A, GEN_FUEL, ('(f_value %s %s)' % (A, X)) if ferm else X, gen.gtensor(got, ring)), cd)
         # ---- blocks -> dense -> blocks with the matching labels
         cms = [dict(ix.chargemap) for ix in x.indices]
         duals = [ix.dual for ix in x.indices]
@@ -600,6 +652,8 @@ def run(ctx):
         if not ferm:
             add_case('from_dense∘to_dense', 'match from_dense %s %s (labels_of %s %s) %s (Some %s) with Some y => aarray_eqb %s y %s | None => false end' % (
                 A, gen.gtensor(got, ring), sym, gixs(x.indices, sym), gbools(duals), gen.gch(x.charge), A, gen.garray(y, sym, ring)), cd)
+            add_gen('from_dense∘to_dense', 'gok_arr %s (from_dense_gen %s %d %s (labels_of %s %s) %s (Some %s)) %s' % (
+                A, A, GEN_FUEL, gen.gtensor(got, ring), sym, gixs(x.indices, sym), gbools(duals), gen.gch(x.charge), gen.garray(y, sym, ring)), cd)
 
     # ---- to_dense must itself iterate the charges in sorted order.  BlockIndex sorts its table on
     # construction, so this is only observable on an index whose stored table is out of order; such an
@@ -628,6 +682,8 @@ def run(ctx):
         if err is None:
             add_case('to_dense-unsorted-table', 'match to_dense %s %s %s with Some t => tensor_eqb %s t %s | None => false end' % (
                 sym, ring, gen.garray(z, sym, ring), ring, gen.gtensor(np.asarray(got), ring)), {'symmetry': sym})
+            add_gen('to_dense-unsorted-table', 'gok_t %s (to_dense_gen %s %s %d %s) %s' % (
+                ring, sym, ring, GEN_FUEL, gen.garray(z, sym, ring), gen.gtensor(np.asarray(got), ring)), {'symmetry': sym})
 
     # ---- observations that are reported but are not violations of the property
     r, err = call(lambda: sru.from_dense(np.zeros((2, 2)), 'Z2', [[0, 1], [0, 1]]))
@@ -653,6 +709,18 @@ def run(ctx):
             # a model disagreement on a concrete input is itself a concrete failing input of the tie
             i = idxs[0]
             bad('implementation differs from the model (%s)' % kind, **meta[i][1], gallina=exprs[i][:1500])
+    # ---- the translated constructor algorithms against the implementation (strict: block order included)
+    g_idx = common.run_cases(ctx, 'ctoralg_gen', GEN_IMPORTS, GEN_PREAMBLE, gexprs, shard=60)
+    if g_idx is None:
+        tie_broken.append('cases.v (Gen/CtorAlgGen.v, the translated constructor algorithms, vs implementation) did not evaluate')
+    elif g_idx:
+        kinds = {}
+        for i in g_idx:
+            kinds.setdefault(gmeta[i][0], []).append(i)
+        for kind, idxs in kinds.items():
+            tie_broken.append('Gen.CtorAlgGen %s disagrees with the implementation on %d case(s)' % (kind, len(idxs)))
+            bad('implementation differs from the function generated from its own source (%s)' % kind, **gmeta[idxs[0]][1],
+                gallina=gexprs[idxs[0]][:1500])
     d_idx = common.run_cases(ctx, 'ctor_drift', IMPORTS, '', [e for _, e in drift[:240]], shard=60)
     if d_idx:
         ctx.extra['model_drift'] = ['%s: block insertion order differs in %d case(s) (not observable, not an alarm)' % (
@@ -673,6 +741,9 @@ def run(ctx):
     ctx.extra['counts'] = stats
     ctx.extra['class_x_symmetry_x_omitted_cells'] = len(dist)
     ctx.extra['model_cases_by_kind'] = {k: sum(1 for m in meta if m[0] == k) for k in sorted({m[0] for m in meta})}
+    ctx.extra['tie'] = {'model_cases': len(exprs), 'translated_ctor_alg_cases': len(gexprs),
+                        'translated_ctor_alg_by_kind': {k: sum(1 for m in gmeta if m[0] == k) for k in sorted({m[0] for m in gmeta})},
+                        'translated_ctor_alg_disagreeing': (None if g_idx is None else len(g_idx))}
     ctx.extra['failures_seen'] = len(found)
     ctx.coverage['rule'] = (
         'construction: the 8 static classes with their symmetry and the 2 generic classes with each of Z2/U1/Z2Z2/U1U1/Z4, times every subset '
